@@ -29,6 +29,8 @@ def run(ctx):
     ctx.rule("C06.no-shortcut", "update_orientations has no data-dependent return that skips the integration, except under a condition that is exactly "
                                 "`start time == end time` (an interval of positive length whose F is returned unintegrated is not a solution of dF/dt = L.F; "
                                 "a closeness test relative to the absolute time skips arbitrarily long intervals late on a pathline)")
+    ctx.rule("C06.callback-arrays", "no in-place write reaches an array returned by get_velocity_gradient / get_position (a callable may hand out the same stored "
+                                    "array every time; rescaling it in place changes L for every later evaluation, so F no longer solves dF/dt = L.F)")
     ctx.rule("C06.update_all", "update_all hands its own deformation_gradient to every mineral's update and returns the last call's result")
     mloc = ctx.program.loc(ctx.program.module("pydrex.minerals"), ctx.program.require_method("pydrex.minerals.Mineral", "update_orientations")) + " (update_orientations)"
     cases = [("olivine", "olivine_A", "matrix_dislocation"), ("enstatite", "enstatite_AB", "matrix_dislocation"),
@@ -49,6 +51,8 @@ def run(ctx):
             one(ctx, R, tag, mloc)
             if N == 2:
                 shortcuts(ctx, R, tag, mloc)
+                w = driver.callback_array_writes(R)
+                ctx.ob("C06.callback-arrays", tag, not w, f"in-place writes into arrays returned by the user's callables: {w[:4]}", mloc)
     ctx.floor("C06.rhs", 10)
     ctx.floor("C06.no-shortcut", 4)
     update_all(ctx)
